@@ -5,7 +5,8 @@
 (* used by recorded traces for contexts made before the workers start) share  *)
 (*   next   the process-wide counter: last id handed out, initially 999       *)
 (*   used   every id ever handed out to a *new* connection                    *)
-(*   ctxid  library-made context -> the id it carries                         *)
+(*   ctxid  library-made context -> the id it carries: context <<g, i>> is    *)
+(*          the i-th context goroutine g made, ctxid[g][i] its id             *)
 (*   origin library-made context -> how it was made ("new" / alias of src)    *)
 (*   out    what arrived at the current writer: one element per Write call    *)
 (* One action per public call / critical section:                             *)
@@ -52,16 +53,19 @@ BgArg      == [k |-> "bg",  g |-> 0, i |-> 0]    \* a context.Context that carri
 ObjArg(id) == [k |-> "obj", g |-> 0, i |-> id]   \* application object, Cid() = id
 CtxArg(c)  == [k |-> "ctx", g |-> c.g, i |-> c.i]\* library-made context c
 NameOf(a)  == Name(a.g, a.i)
-Made       == DOMAIN ctxid
-ArgOk(a)   == a.k = "ctx" => NameOf(a) \in Made
-HasId(a)   == a.k = "ctx" /\ NameOf(a) \in Made
+IsMade(c)  == c.g \in AllProcs /\ c.i \in 1..Len(ctxid[c.g])
+Made       == UNION {{Name(g, i) : i \in 1..Len(ctxid[g])} : g \in AllProcs}
+IdOf(c)    == ctxid[c.g][c.i]
+OriginOf(c) == origin[c.g][c.i]
+ArgOk(a)   == a.k = "ctx" => IsMade(NameOf(a))
+HasId(a)   == a.k = "ctx" /\ IsMade(NameOf(a))
 
 (* The prefix the property fixes: '[pid][cid]' for an id-carrying context,    *)
 (* '[pid]' for nil (cid 0 = absent).  For a context.Context without id the    *)
 (* property says nothing: not judged.                                         *)
 SpecPrefix(a) == CASE a.k = "nil" -> [judged |-> TRUE,  pid |-> Pid, cid |-> 0]
                    [] a.k = "obj" -> [judged |-> TRUE,  pid |-> Pid, cid |-> a.i]
-                   [] a.k = "ctx" -> [judged |-> TRUE,  pid |-> Pid, cid |-> ctxid[NameOf(a)]]
+                   [] a.k = "ctx" -> [judged |-> TRUE,  pid |-> Pid, cid |-> IdOf(NameOf(a))]
                    [] OTHER       -> [judged |-> FALSE, pid |-> 0,   cid |-> 0]
 
 (* What a logging call writes.  Deviation C18/obj-cid-dropped (ObjCid = FALSE): *)
@@ -73,7 +77,7 @@ KeepLast(o, w) == <<w>>
 
 Init == /\ next = FirstId - 1
         /\ used = {}
-        /\ ctxid = <<>> /\ origin = <<>>
+        /\ ctxid = [g \in AllProcs |-> <<>>] /\ origin = [g \in AllProcs |-> <<>>]
         /\ rd = [g \in AllProcs |-> Idle]
         /\ pend = [g \in AllProcs |-> <<>>]
         /\ nlog = [g \in AllProcs |-> 0]
@@ -83,10 +87,10 @@ Init == /\ next = FirstId - 1
 NewOrigin      == [how |-> "new",   g |-> 0,   i |-> 0]
 AliasOrigin(s) == [how |-> "alias", g |-> s.g, i |-> s.i]
 
-\* context c comes into existence carrying id
-Create(c, id, how) == /\ c \notin Made
-                      /\ ctxid'  = ctxid  @@ (c :> id)
-                      /\ origin' = origin @@ (c :> how)
+\* context c comes into existence carrying id: it is the next one of its goroutine
+Create(c, id, how) == /\ c.g \in AllProcs /\ c.i = Len(ctxid[c.g]) + 1
+                      /\ ctxid'  = [ctxid  EXCEPT ![c.g] = Append(@, id)]
+                      /\ origin' = [origin EXCEPT ![c.g] = Append(@, how)]
 
 \* id is handed out: a new connection's context c carries it
 Hand(c, id) == /\ used' = used \cup {id}
@@ -117,7 +121,7 @@ New(g, c) == IF AtomicNew THEN NewAtomic(g, c)
 Alias(g, c, src) ==
   IF HasId(src)
   THEN /\ rd[g] = Idle /\ pend[g] = <<>>
-       /\ Create(c, ctxid[NameOf(src)], AliasOrigin(NameOf(src)))
+       /\ Create(c, IdOf(NameOf(src)), AliasOrigin(NameOf(src)))
        /\ UNCHANGED <<next, used, rd, pend, nlog, out>>
   ELSE /\ src.k \in {"bg", "nil"}
        /\ New(g, c)
@@ -148,7 +152,7 @@ WriteTail(g) == /\ pend[g] # <<>>
 Log(g, level, a) == LogCall(g, level, a, level \in Routed)
 
 (* ---------------------------------- Next ---------------------------------- *)
-NumMade(g) == Cardinality({c \in Made : c.g = g})
+NumMade(g) == Len(ctxid[g])
 Fresh(g)   == Name(g, NumMade(g) + 1)
 Sources    == {CtxArg(c) : c \in Made} \cup {BgArg, NilArg}
 Args       == {a \in {CtxArg(c) : c \in Made} \cup {NilArg, BgArg} \cup {ObjArg(id) : id \in ObjIds} : a.k \in ArgKinds}
@@ -164,13 +168,13 @@ Next == \E g \in Procs :
 Spec == Init /\ [][Next]_vars
 
 (* ------------------------------- the property ----------------------------- *)
-IsNew(c) == origin[c].how = "new"
+IsNew(c) == OriginOf(c).how = "new"
 
 \* every context made for a new connection carries an id no other one carries
-Unique == \A c1, c2 \in Made : (IsNew(c1) /\ IsNew(c2) /\ c1 # c2) => ctxid[c1] # ctxid[c2]
+Unique == \A c1, c2 \in Made : (IsNew(c1) /\ IsNew(c2) /\ c1 # c2) => IdOf(c1) # IdOf(c2)
 
 \* an aliased context carries exactly its source's id
-AliasSame == \A c \in Made : origin[c].how = "alias" => ctxid[c] = ctxid[Name(origin[c].g, origin[c].i)]
+AliasSame == \A c \in Made : OriginOf(c).how = "alias" => IdOf(c) = IdOf(Name(OriginOf(c).g, OriginOf(c).i))
 
 \* every write at the writer is one whole line, its cid the passed context's
 WholeLines == \A i \in 1..Len(out) :
@@ -184,12 +188,12 @@ OnePerCall == /\ \A i, j \in 1..Len(out) : (i # j /\ out[i].kind = out[j].kind) 
               /\ \A i \in 1..Len(out) : out[i].msg.k <= nlog[out[i].msg.g]
 
 \* bookkeeping that ties the variables together (not part of the property)
-CounterOk == /\ used = {ctxid[c] : c \in {d \in Made : IsNew(d)}}
+CounterOk == /\ used = {IdOf(c) : c \in {d \in Made : IsNew(d)}}
              /\ \A id \in used : FirstId <= id /\ id <= next
              /\ AtomicNew => next = FirstId - 1 + Cardinality({c \in Made : IsNew(c)})
 
 TypeOK == /\ next \in Nat /\ used \subseteq Nat
-          /\ DOMAIN origin = Made
-          /\ \A c \in Made : ctxid[c] \in Nat /\ ctxid[c] >= FirstId
+          /\ \A g \in AllProcs : Len(origin[g]) = Len(ctxid[g])
+          /\ \A c \in Made : IdOf(c) \in Nat /\ IdOf(c) >= FirstId
           /\ \A g \in AllProcs : rd[g] \in Nat /\ nlog[g] \in Nat /\ Len(pend[g]) <= 1
 =============================================================================
